@@ -458,7 +458,8 @@ def load(val: _T) -> PythonValueT | _T:
     # Decode first: `strload` is memoized, and a `bytearray` (or a view of one) is not hashable.
     loaded = strload(decode(val))  # type: ignore[arg-type]
     # The memo must not hand out its own mutable containers.
-    if isinstance(loaded, (list, dict, set)):
+    #   (A literal tuple may hold lists or dicts.)
+    if isinstance(loaded, (list, dict, set, tuple)):
         return copy.deepcopy(loaded)
     return loaded
 
